@@ -39,7 +39,7 @@ PROBES = ["earlier_killed", "earlier_io_error", "earlier_clean", "debris_spill_f
           "debris_partial_result", "debris_header_only", "debris_unreadable_parquet", "same_data", "other_data",
           "other_format", "multi_history", "cli", "cli_tsv_leftover", "observed_workers>1", "torn_write",
           "debris_zero_length", "prefix_or_root_differs", "observed_rows_multiple_of_chunk", "rollup_tool", "rollup_same_dir", "earlier_rollup_had_other_inputs", "rollup_outputs_match_input_pattern",
-          "several_collections_with_prefixes", "unlink_refused", "observed_protein_level", "earlier_protein_level"]
+          "several_collections_with_prefixes", "unlink_refused", "observed_protein_level", "earlier_protein_level", "observed_writes_sqlite", "earlier_wrote_sqlite"]
 RULE = (
     "Histories in one destination directory. Family 1 enumerates, for each grid cell (earlier chunk size x observed "
     "chunk size x same/other data x same/other format), EVERY mutation call index of the earlier assign_confidence run "
@@ -95,7 +95,7 @@ def _run_desc(rng, tab, *, chunk, fmt, workers=1, prefix=None, file_root="", dec
     conf = {"decoys": decoys, "dedup": True, "rollup": True, "eval_fdr": 0.1037, "file_root": file_root}
     if prefix:
         conf["prefixes"] = [prefix]
-    return {
+    d = {
         "tables": [tab],
         "score_seed": rng.getrandbits(32),
         "conf": conf,
@@ -110,7 +110,12 @@ def _run_desc(rng, tab, *, chunk, fmt, workers=1, prefix=None, file_root="", dec
         "tag": tag,
         # protein-level confidence as well (its level file is written by the picked-protein step, not by the level loop)
         "fasta_seed": rng.getrandbits(16) if rng.random() < 0.35 else None,
+        # results written to a result database (sqlite_path) instead of text files
+        "sqlite": False,
     }
+    if rng.random() < 0.15:
+        d["sqlite"], d["fasta_seed"] = True, None  # (the database layout has no protein table)
+    return d
 
 
 def _n_rows(tab):
@@ -469,6 +474,8 @@ def run_scenario(scn, workdir):
     probes["multi_history"] = int(len(scn["earlier"]) > 1)
     probes["observed_protein_level"] = int(scn["observed"].get("fasta_seed") is not None)
     probes["earlier_protein_level"] = int(any(e.get("fasta_seed") is not None for e in scn["earlier"]))
+    probes["observed_writes_sqlite"] = int(bool(scn["observed"].get("sqlite")))
+    probes["earlier_wrote_sqlite"] = int(any(e.get("sqlite") for e in scn["earlier"]))
     probes["several_collections_with_prefixes"] = int(len(scn["observed"]["tables"]) > 1)
     _c = (scn["observed"].get("knobs") or {}).get("CONFIDENCE_CHUNK_SIZE")
     probes["observed_rows_multiple_of_chunk"] = int(bool(_c) and _c < 10**8 and _n_rows(scn["observed"]["tables"][0]) % _c == 0)
@@ -527,6 +534,15 @@ def run_scenario(scn, workdir):
             return viol("result_differs", f"result file {name} differs from the clean-directory run: {len(h2) - 1} vs "
                         f"{len(h1) - 1} lines; debris before the run: {[n for n, _ in debris][:8]}",
                         more_rows=len(h2) > len(h1), level=name.split(".")[-1] if "." in name else name)
+    if rep_c.get("sqlite_dump") is not None:
+        dd, dc = rep_d.get("sqlite_dump") or {}, rep_c["sqlite_dump"]
+        for tname, want in dc.items():
+            if dd.get(tname) != want:
+                return viol("result_differs", f"result database table {tname} differs from the clean-directory run: "
+                            f"{len(dd.get(tname) or [])} vs {len(want)} rows; debris before the run: {[n for n, _ in debris][:8]}",
+                            more_rows=len(dd.get(tname) or []) > len(want), level=tname)
+        if not any(r[1] is not None for r in dc["CANDIDATE"]):
+            return viol("result_missing", "the result database holds no PSM-level result after a successful run")
     # (iii) intermediates created by the observed run are gone (both executions)
     for rp, tag, root in ((rep_d, "dirty", dirty), (rep_c, "clean", clean)):
         for p in rp.get("created", []):
